@@ -13,6 +13,42 @@ RULE = ("op sequences (load / loadres / clear / clearres) over flow, isolation, 
         "on the touched resources are compared; fresh rule objects per load; non-trivial = some load that changed state contained an invalid or nil "
         "rule and probes returned both pass and block; distinct by (module, op kind, rule-kind) sequence")
 
+import math
+from fractions import Fraction
+
+QU = 2 ** 60
+
+
+def Qf(x):
+    """a float threshold as the exact integer number of 2^-60 units (values below 2^-8 are snapped to that grid)"""
+    return round(Fraction(x) * QU)
+
+
+def H(h):
+    """a threshold given in halves"""
+    return h * QU // 2
+
+
+def qfloat(q):
+    return float(Fraction(q, QU))
+
+
+# thresholds of unusual magnitude: huge (legal for the validators), and fractional just below an integer
+HUGE = [Qf(x) for x in (1e8, 2e9, 2000000003.0, 4e9, 1e12, 1e15, 123456789.5)]
+FRAC = [Qf(x) for x in (math.nextafter(3.0, 0), 3 - 1e-9, 2 - 1e-9, math.nextafter(2.0, 0), 1 - 1e-9, 0.75, 2.5, 1e-3)]
+# statistic intervals: round ones, ones that are no multiple of the 500 ms global bucket, primes, tiny, beyond the global 10 s span
+STAT_ODD = [1, 7, 250, 499, 501, 700, 997, 1250, 1501, 1600, 1750, 2000, 3001, 5000, 9973, 9999, 10000, 10001, 12345, 15000]
+
+
+def th_delta(rng, q):
+    """a threshold close to q: +-1, +-3, +-1 ulp, 1e-9 relative, just inside / outside the 1e-8 absolute tolerance"""
+    v = qfloat(q)
+    c = rng.choice(["+1", "-1", "+3", "-3", "ulp+", "ulp-", "rel+", "rel-", "in+", "in-", "out+", "out-"])
+    w = {"+1": v + 1, "-1": v - 1, "+3": v + 3, "-3": v - 3, "ulp+": math.nextafter(v, math.inf), "ulp-": math.nextafter(v, -math.inf),
+         "rel+": v * (1 + 1e-9), "rel-": v * (1 - 1e-9), "in+": v + 5e-9, "in-": v - 5e-9, "out+": v + 2e-8, "out-": v - 2e-8}[c]
+    return Qf(w)
+
+
 MODS = ["flow", "iso", "hot", "cb", "sys", "out"]
 RES = {"flow": ["f1", "f2", "f3"], "iso": ["i1", "i2", "i3"], "hot": ["h1", "h2"], "cb": ["c1", "c2", "c3"], "out": ["o1", "o2"]}
 BIG = 2 ** 62
@@ -21,23 +57,23 @@ BIG = 2 ** 62
 # ---- rule records: one dict per rule, every field of the Go struct that validity / equality / DeepEqual / the getters look at ---------
 
 FIELDS = {
-    "flow": ["res", "tcs", "cb", "th2", "rel", "ref", "maxQ", "wp", "cf", "st", "lm", "hm", "ml", "mh", "id"],
+    "flow": ["res", "tcs", "cb", "th", "rel", "ref", "maxQ", "wp", "cf", "st", "lm", "hm", "ml", "mh", "id"],
     "iso": ["res", "metric", "th", "id"],
     "hot": ["res", "metric", "cb", "pidx", "pkey", "th", "maxQ", "burst", "dur", "cap", "items", "id"],
-    "cb": ["res", "s", "retry", "minReq", "stat", "bk", "maxRt", "th2", "probe", "id"],
+    "cb": ["res", "s", "retry", "minReq", "stat", "bk", "maxRt", "th", "probe", "id"],
     "sys": ["metric", "th2", "st", "id"],
     "out": ["pct", "rec", "act", "recyc", "att", "inner"],
 }
 # values a one-field delta may switch to (the generator never uses MinRequestAmount 2 or MaxAllowedRtMs >= 50: probe model)
 ALPHA = {
-    "flow": dict(res=["f1", "f2", "f3"], tcs=[0, 1, 2], cb=[0, 1], th2=[0, 1, 2, 3, 4, 6, 20, 200], rel=[0, 1], ref=["_", "f9", "f8"],
-                 maxQ=[0, 500, 7], wp=[0, 1, 10], cf=[0, 2, 3, 5], st=[0, 1000, 2000, 700], lm=[1000, 2000], hm=[100, 200],
+    "flow": dict(res=["f1", "f2", "f3"], tcs=[0, 1, 2], cb=[0, 1], th=[H(0), H(1), H(2), H(3), H(4), H(6), H(20), H(200)] + HUGE + FRAC, rel=[0, 1], ref=["_", "f9", "f8"],
+                 maxQ=[0, 500, 7], wp=[0, 1, 10], cf=[0, 2, 3, 5], st=[0, 1000] + STAT_ODD, lm=[1000, 2000], hm=[100, 200],
                  ml=[1024, 512], mh=[2048, 4096, 1 << 20], id=["_", "a", "b"]),
     "iso": dict(res=["i1", "i2", "i3"], metric=[0, 1], th=[1, 2, 3, 10], id=["_", "a", "b"]),
     "hot": dict(res=["h1", "h2"], metric=[0, 1], cb=[0, 1], pidx=[0, 1, -1], pkey=["_", "k", "k2"], th=[0, 1, 3, 100], maxQ=[0, 500, 7],
                 burst=[0, 2, 4], dur=[1, 5, 0], cap=[0, 100, 50], items=[0, 1, 2, 7], id=["_", "a", "b"]),
-    "cb": dict(res=["c1", "c2", "c3"], s=[0, 1, 2], retry=[1000, 5000], minReq=[0, 1, 100], stat=[1000, 10000], bk=[0, 1, 2, 3],
-               maxRt=[0, 10, 20], th2=[0, 1, 2, 4, 10], probe=[0, 1, 3], id=["_", "a", "b"]),
+    "cb": dict(res=["c1", "c2", "c3"], s=[0, 1, 2], retry=[1000, 5000], minReq=[0, 1, 100], stat=[1000] + STAT_ODD, bk=[0, 1, 2, 3],
+               maxRt=[0, 10, 20], th=[H(0), H(1), H(2), H(4), H(10)] + HUGE + FRAC, probe=[0, 1, 3], id=["_", "a", "b"]),
     "sys": dict(metric=[0, 1, 2, 3, 4], th2=[0, 1, 2, 8, 9, 20], st=[-1, 0, 1], id=["_", "a", "b"]),
     "out": dict(pct=[0, 1, 2], rec=[0, 1000, 500], act=[0, 1], recyc=[0, 60], att=[0, 3]),
 }
@@ -58,16 +94,18 @@ def rid(rng):
 
 
 def flow_rule(rng, res, kind):
-    st = rng.choice([0, 0, 0, 1000, 2000, 700])
+    st = rng.choice([0, 0, 0, 1000, 2000, 700] + ([rng.choice(STAT_ODD), rng.randint(1, 15000)] if rng.random() < 0.5 else []))
     th = rng.choice([0, 0, 1, 2, 3, 4, 6, 20])
-    f = dict(res=res, tcs=0, cb=rng.choice([0, 0, 1]), th2=th, rel=0, ref="_", maxQ=0, wp=0, cf=0, st=st, lm=0, hm=0, ml=0, mh=0, id=rid(rng))
+    f = dict(res=res, tcs=0, cb=rng.choice([0, 0, 1]), th=H(th), rel=0, ref="_", maxQ=0, wp=0, cf=0, st=st, lm=0, hm=0, ml=0, mh=0, id=rid(rng))
     if kind == "valid":
         v = rng.random()
         if v < 0.55:
             if f["cb"] == 1:
                 f["maxQ"] = rng.choice([0, 500])
+            if rng.random() < 0.15:
+                f["th"] = rng.choice(HUGE + FRAC)
         elif v < 0.72:
-            f.update(tcs=1, cb=rng.choice([0, 1]), th2=rng.choice([20, 200]), wp=rng.choice([1, 10]), cf=rng.choice([0, 0, 2, 3, 5]), st=0)
+            f.update(tcs=1, cb=rng.choice([0, 1]), th=rng.choice([H(20), H(200)]), wp=rng.choice([1, 10]), cf=rng.choice([0, 0, 2, 3, 5]), st=0)
         elif v < 0.86:
             f.update(tcs=2, cb=rng.choice([0, 1]), lm=1000, hm=100, ml=1024, mh=rng.choice([2048, 1 << 20]), st=0)
         elif v < 0.95:
@@ -82,13 +120,13 @@ def flow_rule(rng, res, kind):
         c = int(kind[3:])
         mem = dict(tcs=2, cb=0, lm=1000, hm=100, ml=1024, mh=2048, st=0)
         if c == 1: f.update(res="_")
-        elif c == 2: f.update(th2=rng.choice([-1, -2, -40]), cb=0)
-        elif c == 3: f.update(tcs=rng.choice([-1, -5]), cb=0, th2=0)
-        elif c == 4: f.update(cb=-1, th2=0)
-        elif c == 5: f.update(rel=rng.choice([2, -1]), th2=0)
-        elif c == 6: f.update(rel=1, ref="_", th2=0)
-        elif c == 7: f.update(tcs=1, wp=0, cf=3, th2=20)
-        elif c == 8: f.update(tcs=1, wp=10, cf=1, th2=20)
+        elif c == 2: f.update(th=rng.choice([H(-1), H(-2), H(-40)]), cb=0)
+        elif c == 3: f.update(tcs=rng.choice([-1, -5]), cb=0, th=H(0))
+        elif c == 4: f.update(cb=-1, th=H(0))
+        elif c == 5: f.update(rel=rng.choice([2, -1]), th=H(0))
+        elif c == 6: f.update(rel=1, ref="_", th=H(0))
+        elif c == 7: f.update(tcs=1, wp=0, cf=3, th=H(20))
+        elif c == 8: f.update(tcs=1, wp=10, cf=1, th=H(20))
         elif c == 9: f.update(mem, lm=rng.choice([0, -1]))
         elif c == 10: f.update(mem, hm=rng.choice([0, -1]))
         elif c == 11: f.update(mem, hm=rng.choice([1000, 2000]))
@@ -140,10 +178,14 @@ def hot_rule(rng, res, kind):
 
 def cb_rule(rng, res, kind, unbuildable_ok=True):
     s = rng.choice([0, 1, 2, 2])
-    f = dict(res=res, s=s, retry=rng.choice([1000, 5000]), minReq=rng.choice([0, 1, 1, 100]), stat=rng.choice([1000, 10000]),
-             bk=rng.choice([0, 1, 2, 3]), maxRt=rng.choice([0, 10, 20]), th2=rng.choice([0, 1, 2]) if s < 2 else rng.choice([0, 1, 2, 3, 4, 10]),
+    f = dict(res=res, s=s, retry=rng.choice([1000, 5000]), minReq=rng.choice([0, 1, 1, 100]), stat=rng.choice([1000, 10000, rng.choice(STAT_ODD), rng.randint(1, 15000)]),
+             bk=rng.choice([0, 1, 2, 3]), maxRt=rng.choice([0, 10, 20]), th=rng.choice([H(0), H(1), H(2)]) if s < 2 else rng.choice([H(0), H(1), H(2), H(3), H(4), H(10)]),
              probe=rng.choice([0, 0, 1, 3]), id=rid(rng))
     if kind == "valid":
+        if f["s"] == 2 and rng.random() < 0.15:
+            f["th"] = rng.choice(HUGE + FRAC)
+        elif f["s"] < 2 and rng.random() < 0.1:
+            f["th"] = rng.choice([Qf(1 - 1e-9), Qf(0.75), Qf(math.nextafter(1.0, 0)), Qf(1e-3)])
         if unbuildable_ok and rng.random() < 0.04:
             kind = "unbuildable"
             f.update(s=rng.choice([3, 8]))
@@ -152,9 +194,9 @@ def cb_rule(rng, res, kind, unbuildable_ok=True):
         if c == 1: f.update(res="_")
         elif c == 2: f.update(stat=0)
         elif c == 3: f.update(retry=0)
-        elif c == 4: f.update(th2=rng.choice([-1, -2]), s=rng.choice([0, 1, 2]), minReq=rng.choice([0, 1]))
-        elif c == 5: f.update(s=0, th2=rng.choice([3, 4]))
-        elif c == 6: f.update(s=1, th2=rng.choice([3, 10]))
+        elif c == 4: f.update(th=rng.choice([H(-1), H(-2)]), s=rng.choice([0, 1, 2]), minReq=rng.choice([0, 1]))
+        elif c == 5: f.update(s=0, th=rng.choice([H(3), H(4)]))
+        elif c == 6: f.update(s=1, th=rng.choice([H(3), H(10)]))
     return f, kind
 
 
@@ -199,6 +241,11 @@ def delta(rng, mod, r):
         r["inner"], fld = delta(rng, "cb", r["inner"])
         return r, "inner." + fld
     fld = rng.choice([k for k in FIELDS[mod] if k != "inner"])
+    if fld == "th" and mod in ("flow", "cb") and rng.random() < 0.7:
+        q = th_delta(rng, r["th"])
+        if q != r["th"]:
+            r["th"] = q
+            return r, "th~"
     alts = [v for v in ALPHA[mod][fld] if v != r[fld]]
     r[fld] = rng.choice(alts)
     return r, fld
@@ -209,7 +256,19 @@ def load_op(mod, kind, res, rules):
     return f"load {mod} {body}" if kind == "load" else f"loadres {mod} {res} {body}"
 
 
-def observe(rng, mod, touched, everything=False):
+def near_batches(rules, res):
+    """batch counts right at the thresholds of the flow rules just loaded for res (a batch probe tells T from T+-1)"""
+    bs = []
+    for r in rules or []:
+        if r is None or r.get("res") != res:
+            continue
+        T = qfloat(r["th"]) if r["tcs"] != 2 else float(r["hm"])
+        if 1 <= T < 4294967290:
+            bs += [int(T), int(T) + 1]
+    return list(dict.fromkeys(bs))[:6]
+
+
+def observe(rng, mod, touched, everything=False, rules=None):
     """getters and probes for the touched resources of a module"""
     ops = []
     if mod == "sys":
@@ -226,6 +285,10 @@ def observe(rng, mod, touched, everything=False):
             seqs = ["1 1 1 1", "2 1", "3 1", "100 1", "1 1 1 1 1 1 1", "10 1 1", "50 50 1", "200 1"]
             for q in (seqs[:6] if everything else rng.sample(seqs, 2)):
                 ops.append(f"probeseq flow {res} {q}")
+            for b in near_batches(rules, res):
+                ops.append(f"probe flow {res} {b}")
+                if b > 3:
+                    ops.append(f"probeseq flow {res} {b - 1} 1 1")
         elif mod == "iso":
             for b in ([1, 2, 3, 4] if everything else rng.sample([1, 2, 3, 4, 11], 2)):
                 ops.append(f"probe iso {res} {b}")
@@ -233,6 +296,7 @@ def observe(rng, mod, touched, everything=False):
             ops.append(f"probe cb {res}")
         if mod in ("flow", "hot", "cb"):
             ops.append(f"ctrlids {mod} {res}")
+            ops.append(f"ctrlhist {mod} {res}")
     ops.append(f"get {mod}")
     return ops
 
@@ -316,23 +380,23 @@ def gen_case(rng, cid, stats):
             op, touched = f"clear {mod}", list(names)
             kinds.append((mod, "clear"))
         ops.append(op)
-        ops += observe(rng, mod, list(dict.fromkeys(touched)))
+        ops += observe(rng, mod, list(dict.fromkeys(touched)), rules=last.get(mod, (0, 0, None, 0))[2] if op.startswith("load") else None)
     return Case(cid, ops, tags=tuple(mods)), kinds
 
 
 # ---- systematic one-field deltas: every field of every record, both load paths, every base rule shape ------------------------------
 
 def _bases():
-    F = dict(res="f1", tcs=0, cb=0, th2=4, rel=0, ref="_", maxQ=0, wp=0, cf=0, st=0, lm=0, hm=0, ml=0, mh=0, id="_")
-    H = dict(res="h1", metric=1, cb=0, pidx=0, pkey="_", th=3, maxQ=0, burst=0, dur=1, cap=0, items=1, id="_")
-    C = dict(res="c1", s=2, retry=1000, minReq=1, stat=1000, bk=0, maxRt=0, th2=2, probe=0, id="_")
+    F = dict(res="f1", tcs=0, cb=0, th=H(4), rel=0, ref="_", maxQ=0, wp=0, cf=0, st=0, lm=0, hm=0, ml=0, mh=0, id="_")
+    HB = dict(res="h1", metric=1, cb=0, pidx=0, pkey="_", th=3, maxQ=0, burst=0, dur=1, cap=0, items=1, id="_")
+    C = dict(res="c1", s=2, retry=1000, minReq=1, stat=1000, bk=0, maxRt=0, th=H(2), probe=0, id="_")
     return {
-        "flow": [F, dict(F, cb=1, maxQ=500), dict(F, tcs=1, th2=20, wp=10, cf=3), dict(F, tcs=1, cb=1, th2=20, wp=10, cf=2, maxQ=500),
+        "flow": [F, dict(F, cb=1, maxQ=500), dict(F, tcs=1, th=H(20), wp=10, cf=3), dict(F, tcs=1, cb=1, th=H(20), wp=10, cf=2, maxQ=500),
                  dict(F, tcs=2, lm=1000, hm=100, ml=1024, mh=2048), dict(F, tcs=2, cb=1, lm=1000, hm=100, ml=1024, mh=2048),
                  dict(F, rel=1, ref="f9", st=2000)],
         "iso": [dict(res="i1", metric=0, th=2, id="_")],
-        "hot": [H, dict(H, cb=1, maxQ=500), dict(H, metric=0, dur=0), dict(H, pkey="k", items=2)],
-        "cb": [C, dict(C, s=0, th2=1, maxRt=10), dict(C, s=1, th2=1)],
+        "hot": [HB, dict(HB, cb=1, maxQ=500), dict(HB, metric=0, dur=0), dict(HB, pkey="k", items=2)],
+        "cb": [C, dict(C, s=0, th=H(1), maxRt=10), dict(C, s=1, th=H(1))],
         "sys": [dict(metric=3, th2=8, st=-1, id="_"), dict(metric=4, th2=1, st=0, id="_")],
         "out": [dict(pct=1, rec=0, act=0, recyc=0, att=0, inner=dict(C, res="o1"))],
     }
@@ -342,16 +406,16 @@ def dup_corpus():
     """duplicate identical rules across reload pairs, every controller-bearing module, both load paths"""
     cases = []
     bases = _bases()
-    extra_flow = [dict(bases["flow"][0], cb=1, th2=2, maxQ=0, st=1000), dict(bases["flow"][0], cb=1, th2=1, maxQ=0)]
+    extra_flow = [dict(bases["flow"][0], cb=1, th=H(2), maxQ=0, st=1000), dict(bases["flow"][0], cb=1, th=H(1), maxQ=0)]
     for mod in ("flow", "hot", "cb"):
         for bi, A in enumerate(bases[mod] + (extra_flow if mod == "flow" else [])):
-            fld = {"flow": "th2", "hot": "th", "cb": "th2"}[mod]
+            fld = {"flow": "th", "hot": "th", "cb": "th"}[mod]
             B = dict(A, **{fld: [v for v in ALPHA[mod][fld] if v != A[fld]][0]})
             res = A["res"]
             for path in ("load", "loadres"):
                 ops = []
                 for lst in ([A], [A, A], [A], [A, A, A], [A, B], [A, A, B], [B, A, A], [A, A], [B, B, A]):
-                    ops += [load_op(mod, path, res, [dict(x) for x in lst])] + observe(None, mod, [res], everything=True)
+                    ops += [load_op(mod, path, res, [dict(x) for x in lst])] + observe(None, mod, [res], everything=True, rules=lst)
                 cases.append(Case(f"dup-{mod}{bi}-{path}", ops, tags=("corpus", "dup")))
     return cases
 
@@ -361,7 +425,7 @@ def replace_corpus():
     the controller of Y must behave like a fresh one whatever X left behind (statistic, pacer, breaker)"""
     cases = []
     bases = _bases()
-    flow = bases["flow"] + [dict(bases["flow"][0], cb=1, th2=2, maxQ=0)]
+    flow = bases["flow"] + [dict(bases["flow"][0], cb=1, th=H(2), maxQ=0)]
     shapes = {"flow": [dict(x, st=st) for st in (0, 1000) for x in flow if x["rel"] == 0] + [x for x in flow if x["rel"] == 1],
               "hot": bases["hot"], "cb": bases["cb"]}
     for mod, lst in shapes.items():
@@ -371,8 +435,8 @@ def replace_corpus():
                     continue
                 res = X["res"]
                 for path in ("load", "loadres"):
-                    ops = [load_op(mod, path, res, [dict(X)])] + observe(None, mod, [res], everything=True)
-                    ops += [load_op(mod, path, res, [dict(Y)])] + observe(None, mod, [res], everything=True)
+                    ops = [load_op(mod, path, res, [dict(X)])] + observe(None, mod, [res], everything=True, rules=[X])
+                    ops += [load_op(mod, path, res, [dict(Y)])] + observe(None, mod, [res], everything=True, rules=[Y])
                     cases.append(Case(f"repl-{mod}{i}-{j}-{path}", ops, tags=("corpus", "replace")))
     return cases
 
@@ -389,15 +453,29 @@ def delta_corpus():
                             if f2 == "res": v = "o2"
                             variants.append(("inner." + f2, dict(base, inner=dict(base["inner"], **{f2: v}))))
                     continue
-                for v in [x for x in ALPHA[mod][fld] if x != base[fld]][:2]:
+                alts = [x for x in ALPHA[mod][fld] if x != base[fld]]
+                for v in (alts if fld in ("st", "stat") else alts[:2]):
                     variants.append((fld, dict(base, **{fld: v})))
+                if fld == "th" and mod in ("flow", "cb"):
+                    for big in (base["th"], Qf(2e9), Qf(1e15), Qf(3.0), Qf(2.0)):
+                        b2 = dict(base, th=big)
+                        for w in ("+1", "+3", "ulp+", "ulp-", "rel+", "in+", "in-", "out+"):
+                            v = qfloat(big)
+                            q = Qf({"+1": v + 1, "+3": v + 3, "ulp+": math.nextafter(v, math.inf), "ulp-": math.nextafter(v, -math.inf),
+                                    "rel+": v * (1 + 1e-9), "in+": v + 5e-9, "in-": v - 5e-9, "out+": v + 2e-8}[w])
+                            if q != big:
+                                variants.append((f"th{w}", (b2, dict(b2, th=q))))
             res = base.get("res") or (base["inner"]["res"] if mod == "out" else None)
             for fld, var in variants:
+                base0 = base
+                if isinstance(var, tuple):
+                    base, var = var
                 for path in (("load", "loadres") if mod != "sys" else ("load",)):
-                    ops = [load_op(mod, path, res, [base])] + observe(None, mod, [res], everything=True)
-                    ops += [load_op(mod, path, res, [var])] + observe(None, mod, [res], everything=True)
-                    ops += [load_op(mod, path, res, [base])] + observe(None, mod, [res], everything=True)
-                    cases.append(Case(f"delta-{mod}{bi}-{fld}-{path}", ops, tags=("corpus", "delta")))
+                    ops = [load_op(mod, path, res, [base])] + observe(None, mod, [res], everything=True, rules=[base, var])
+                    ops += [load_op(mod, path, res, [var])] + observe(None, mod, [res], everything=True, rules=[base, var])
+                    ops += [load_op(mod, path, res, [base])] + observe(None, mod, [res], everything=True, rules=[base, var])
+                    cases.append(Case(f"delta-{mod}{bi}-{fld}-{path}-{len(cases)}", ops, tags=("corpus", "delta")))
+                base = base0
     return cases
 
 
